@@ -8,3 +8,11 @@ extern "C" __attribute__((used)) void w_tzinfo_anchor(cctz::TimeZoneInfo* z, con
   z->NextTransition(*tp, tr);
   z->PrevTransition(*tp, tr);
 }
+// cctz::convert (inline in time_zone.h) so that its own code is emitted as IR: which instant it picks from a civil_lookup, and that the
+// instant -> civil direction is lookup(tp).cs
+extern "C" __attribute__((used)) long long w_convert_cs(const cctz::civil_second* cs, const cctz::time_zone* tz) {
+  return cctz::convert(*cs, *tz).time_since_epoch().count();
+}
+extern "C" __attribute__((used)) void w_convert_tp(const cctz::time_point<cctz::seconds>* tp, const cctz::time_zone* tz, cctz::civil_second* out) {
+  *out = cctz::convert(*tp, *tz);
+}
